@@ -72,6 +72,19 @@ prop('C04',
           'from_utc_datetime/from_local_datetime round trips and their failure condition, Eq/Ord/Hash depend only on the instant, with_timezone/fixed_offset/to_utc '
           'keep the instant, and all Datelike/Timelike getters read the wall clock (also one day beyond the nominal range).')
 
+prop('C05',
+     title='Local time follows the zone data: offsets, gaps and folds',
+     verus=['tz'],
+     bounded=['vk_tz_find_type_bounded', 'vk_tz_from_local_classify_bounded', 'vk_tz_validate_bounded'],
+     uncovered=['POSIX TZ rule lookups AlternateTime::find_local_time_type / find_local_time_type_from_local and their calendar helpers (rule.rs) -- not under contract yet',
+                'Local / Cache::offset glue (reads environment and file system)', 'zones with leap-second records', 'zoneinfo database enumeration (configurations)',
+                'instant -> type lookup and exact gap/fold classification beyond the stated table bound (only bounded stand-ins)'],
+     text='Verus proves, for transition tables of ANY length (hypothesis: strictly increasing transition times as established by validate(); separation hypothesis: a repeated '
+          'hour ends before the next transition), that every candidate returned by the real find_local_time_type_from_local is sound (wall -> instant -> wall is the identity), '
+          'that Ambiguous lists the earlier instant first with two distinct offsets, and that no transition time of the file can overflow the arithmetic. '
+          'Bounded Kani stand-ins (<= 2 transitions): offset for an instant = type of the last transition at or before it; exact None/Single/Ambiguous classification; validate() <=> well-formed. '
+          'The POSIX-rule part is named unverified.')
+
 prop('C06',
      title='Durations are exact signed nanosecond counts within a closed range',
      verus=['timedelta'],
@@ -130,7 +143,6 @@ prop('C19',
 
 # properties not (or not yet) claimed: every id of properties.jsonl is either in PROPS or here
 NOT_APPLICABLE = {
-    'C05': 'not built yet',
  'C10': 'not built yet', 'C12': 'not built yet',
     'C14': 'not built yet', 'C15': 'not built yet', 'C16': 'not built yet',
     'C09': 'print->parse round trip lives in core::fmt and &str scanning with iterator adapters: no function contract within reach of Verus (no str bytes) and only bounded exploration in Kani, which is another technique',
